@@ -11,15 +11,25 @@ def knots_args(dom, n):
     return [SliceRef(c, (), 0, n)]
 
 
-def explore(e, fname, n, dom, max_paths=128):
+def explore(e, fname, n, dom, max_paths=1024, pre=()):
     """Symbolically execute `constrained_spline` / `linear` on n symbolic knots.
     Returns list of (path, segs) with segs = [(end_term, [coef terms])] or None for panicking paths."""
     it = Interp(e.program, dom, max_paths=max_paths)
     fn = e.program.find(fname)
     paths = it.explore(fn, lambda d: knots_args(d, n))
     e.rep.functions.update(it.functions_run)
+    # The pinned code has one binary decision per interior knot (spline) / per segment (linear) and all of its paths are
+    # feasible; the (solver-backed) feasibility filter is only needed when changed code produces more paths than that.
+    nominal = 2 ** (n - 2) if fname == "constrained_spline" else 2 ** (n - 1)
+    filter_paths = len(paths) > nominal
     out = []
     for p in paths:
+        # a path whose own conditions are contradictory (e.g. the `None` arm of a `partial_cmp` match in real arithmetic)
+        # is not a path of the function; dropping it is sound, keeping it would only produce vacuous obligations
+        if p.conds and filter_paths:
+            rc, _, _ = e.check(list(pre) + list(p.conds) + list(p.side), cap_ms=3000)
+            if rc == z3.unsat:
+                continue
         if p.panic is not None:
             out.append((p, None))
             continue
